@@ -141,6 +141,41 @@ def namesGo (v : Bool) : Nat → List Nat → List (List Nat)
 
 def lexNames (v : Bool) (l : List Nat) : List (List Nat) := namesGo v 0 l
 
+/-- A frame of the scope scanner: the scope at the start of the enclosing disjunction, and the union
+of the scopes at the ends of its alternatives so far. -/
+abbrev Frame := List (List Nat) × List (List Nat)
+
+/-- The grammar's duplicate-name rule (ES2025: a name may recur in DIFFERENT alternatives), as a
+scanner: `cur` is the set of names that might participate together with what follows; a `|` restores
+the scope of the start of the disjunction, a `)` continues with the union over the alternatives; a
+named group whose name is in scope makes the scan fail. -/
+def scopeGo (v : Bool) : Nat → List Frame → List (List Nat) → List Nat → Bool
+  | _ + 1, _, _, [] => true
+  | d + 1, stk, cur, 0x5C :: _ :: r => scopeGo v (d + 1) stk cur r
+  | d + 1, stk, cur, 0x5D :: r => scopeGo v d stk cur r
+  | d + 1, stk, cur, 0x5B :: r => if v then scopeGo v (d + 2) stk cur r else scopeGo v (d + 1) stk cur r
+  | d + 1, stk, cur, _ :: r => scopeGo v (d + 1) stk cur r
+  | 0, _, _, [] => true
+  | 0, stk, cur, 0x5C :: _ :: r => scopeGo v 0 stk cur r
+  | 0, stk, cur, 0x5B :: r => scopeGo v 1 stk cur r
+  | 0, stk, cur, 0x28 :: 0x3F :: r =>
+    match namedAhead r with
+    | some nm => !cur.contains nm && scopeGo v 0 ((nm :: cur, []) :: stk) (nm :: cur) r
+    | none => scopeGo v 0 ((cur, []) :: stk) cur r
+  | 0, stk, cur, 0x28 :: r => scopeGo v 0 ((cur, []) :: stk) cur r
+  | 0, stk, cur, 0x7C :: r =>
+    match stk with
+    | (sv, acc) :: rest => scopeGo v 0 ((sv, acc ++ cur) :: rest) sv r
+    | [] => scopeGo v 0 [] cur r
+  | 0, stk, cur, 0x29 :: r =>
+    match stk with
+    | (_, acc) :: fr :: rest => scopeGo v 0 (fr :: rest) (acc ++ cur) r
+    | _ => scopeGo v 0 stk cur r
+  | 0, stk, cur, _ :: r => scopeGo v 0 stk cur r
+
+/-- No group name recurs within its scope. -/
+def scopeOk (v : Bool) (pat : List Nat) : Bool := scopeGo v 0 [([], [])] [] pat
+
 /-- Number of `(`. -/
 def opens : List Nat → Nat
   | [] => 0
@@ -255,6 +290,75 @@ theorem lexNames_plain (v : Bool) {c : Nat} (r : List Nat) (h2 : c ≠ 0x5C) (h3
   · intro x r' h; exact absurd h h2
   · intro h; exact absurd h h3
   · intro r' h hr; exact h1 h r' hr
+
+theorem scopeGo_esc (v : Bool) (m : Nat) (stk : List Frame) (cur : List (List Nat)) (x : Nat) (r : List Nat) :
+    scopeGo v m stk cur (0x5C :: x :: r) = scopeGo v m stk cur r := by
+  cases m <;> rw [scopeGo]
+
+theorem scopeGo_in (v : Bool) (d : Nat) (stk : List Frame) (cur : List (List Nat)) {c : Nat} (r : List Nat)
+    (h1 : c ≠ 0x5C) (h2 : c ≠ 0x5D) (h3 : v = false ∨ c ≠ 0x5B) :
+    scopeGo v (d + 1) stk cur (c :: r) = scopeGo v (d + 1) stk cur r := by
+  by_cases hb : c = 0x5B
+  · subst hb
+    rcases h3 with h | h
+    · subst h; rw [scopeGo]; rfl
+    · exact absurd rfl h
+  · rw [scopeGo]
+    · intro x r' h; exact absurd h h1
+    · intro h; exact absurd h h2
+    · intro h; exact absurd h hb
+
+theorem scopeGo_nest (d : Nat) (stk : List Frame) (cur : List (List Nat)) (r : List Nat) :
+    scopeGo true (d + 1) stk cur (0x5B :: r) = scopeGo true (d + 2) stk cur r := by
+  rw [scopeGo]; rfl
+
+theorem scopeGo_close (v : Bool) (d : Nat) (stk : List Frame) (cur : List (List Nat)) (r : List Nat) :
+    scopeGo v (d + 1) stk cur (0x5D :: r) = scopeGo v d stk cur r := by rw [scopeGo]
+
+theorem scopeGo_open (v : Bool) (stk : List Frame) (cur : List (List Nat)) (r : List Nat) :
+    scopeGo v 0 stk cur (0x5B :: r) = scopeGo v 1 stk cur r := by rw [scopeGo]
+
+theorem scopeGo_plain (v : Bool) (stk : List Frame) (cur : List (List Nat)) {c : Nat} (r : List Nat)
+    (h1 : c ≠ 0x28) (h2 : c ≠ 0x29) (h3 : c ≠ 0x5C) (h4 : c ≠ 0x5B) (h5 : c ≠ 0x7C) :
+    scopeGo v 0 stk cur (c :: r) = scopeGo v 0 stk cur r := by
+  rw [scopeGo]
+  · intro x r' h; exact absurd h h3
+  · intro h; exact absurd h h4
+  · intro r' h; exact absurd h h1
+  · intro h; exact absurd h h1
+  · intro h; exact absurd h h5
+  · intro h; exact absurd h h2
+
+theorem scopeGo_q (v : Bool) (stk : List Frame) (cur : List (List Nat)) (r : List Nat) :
+    scopeGo v 0 stk cur (0x28 :: 0x3F :: r) =
+      match namedAhead r with
+      | some nm => !cur.contains nm && scopeGo v 0 ((nm :: cur, []) :: stk) (nm :: cur) r
+      | none => scopeGo v 0 ((cur, []) :: stk) cur r := by
+  rw [scopeGo]
+
+theorem scopeGo_cap (v : Bool) (stk : List Frame) (cur : List (List Nat)) {r : List Nat}
+    (hr : ∀ r', r ≠ 0x3F :: r') :
+    scopeGo v 0 stk cur (0x28 :: r) = scopeGo v 0 ((cur, []) :: stk) cur r := by
+  rw [scopeGo]
+  all_goals first
+    | (intro x h; exact hr x h)
+    | (intro h; cases h)
+    | (intro x r' h; cases h)
+
+theorem scopeGo_bar (v : Bool) (sv acc : List (List Nat)) (rest : List Frame) (cur : List (List Nat))
+    (r : List Nat) :
+    scopeGo v 0 ((sv, acc) :: rest) cur (0x7C :: r) = scopeGo v 0 ((sv, acc ++ cur) :: rest) sv r := by
+  rw [scopeGo]
+
+theorem scopeGo_rparen (v : Bool) (sv acc : List (List Nat)) {rest : List Frame} (hne : rest ≠ [])
+    (cur : List (List Nat)) (r : List Nat) :
+    scopeGo v 0 ((sv, acc) :: rest) cur (0x29 :: r) = scopeGo v 0 rest (acc ++ cur) r := by
+  rcases rest with _ | ⟨fr, rest⟩
+  · exact absurd rfl hne
+  · rw [scopeGo]
+
+theorem scopeGo_nil (v : Bool) (m : Nat) (stk : List Frame) (cur : List (List Nat)) :
+    scopeGo v m stk cur [] = true := by cases m <;> rw [scopeGo]
 
 theorem isIdStart_eq : Parse.isIdStart 0x3D = false := by decide +kernel
 theorem isIdStart_bang : Parse.isIdStart 0x21 = false := by decide +kernel
@@ -406,20 +510,22 @@ structure NeutralM (F : Feat) (m : Nat) (p : List Nat) : Prop where
   cap : ∀ r, capGo F.vk m (p ++ r) = capGo F.vk m r
   names : ∀ r, namesGo F.vk m (p ++ r) = namesGo F.vk m r
   frag : ∀ r, fragGo F m (p ++ r) = true → fragGo F m r = true
+  scope : ∀ stk cur r, scopeGo F.vk m stk cur (p ++ r) = scopeGo F.vk m stk cur r
 
 /-- Neutral outside a class. -/
 def Neutral (F : Feat) (p : List Nat) : Prop := NeutralM F 0 p
 
 theorem neutralM_nil (F : Feat) (m : Nat) : NeutralM F m [] :=
-  ⟨fun _ => rfl, fun _ => rfl, fun _ => rfl, fun _ => id⟩
+  ⟨fun _ => rfl, fun _ => rfl, fun _ => rfl, fun _ => id, fun _ _ _ => rfl⟩
 
 theorem neutralM_append {F : Feat} {m : Nat} {p q : List Nat} (hp : NeutralM F m p) (hq : NeutralM F m q) :
     NeutralM F m (p ++ q) := by
-  refine ⟨fun r => ?_, fun r => ?_, fun r => ?_, fun r h => ?_⟩
+  refine ⟨fun r => ?_, fun r => ?_, fun r => ?_, fun r h => ?_, fun stk cur r => ?_⟩
   · rw [List.append_assoc]; exact (hp.md _).trans (hq.md r)
   · rw [List.append_assoc]; exact (hp.cap _).trans (hq.cap r)
   · rw [List.append_assoc]; exact (hp.names _).trans (hq.names r)
   · rw [List.append_assoc] at h; exact hq.frag r (hp.frag _ h)
+  · rw [List.append_assoc]; exact (hp.scope _ _ _).trans (hq.scope _ _ r)
 
 theorem Neutral.md_eq {F : Feat} {p : List Nat} (hp : Neutral F p) (r : List Nat) :
     md F.vk (p ++ r) = md F.vk r := hp.md r
@@ -436,30 +542,32 @@ theorem neutral_append {F : Feat} {p q : List Nat} (hp : Neutral F p) (hq : Neut
     Neutral F (p ++ q) := neutralM_append hp hq
 
 /-- An ordinary character in every scanner mode: no parenthesis, bracket or backslash. -/
-def Plain (c : Nat) : Prop := c ≠ 0x28 ∧ c ≠ 0x29 ∧ c ≠ 0x5C ∧ c ≠ 0x5B ∧ c ≠ 0x5D
+def Plain (c : Nat) : Prop := c ≠ 0x28 ∧ c ≠ 0x29 ∧ c ≠ 0x5C ∧ c ≠ 0x5B ∧ c ≠ 0x5D ∧ c ≠ 0x7C
 
 /-- Outside a class every character but `(` `)` `\` `[` is ordinary. -/
-theorem neutral_out (F : Feat) {c : Nat} (h1 : c ≠ 0x28) (h2 : c ≠ 0x29) (h3 : c ≠ 0x5C) (h4 : c ≠ 0x5B) :
-    Neutral F [c] := by
+theorem neutral_out (F : Feat) {c : Nat} (h1 : c ≠ 0x28) (h2 : c ≠ 0x29) (h3 : c ≠ 0x5C) (h4 : c ≠ 0x5B)
+    (h5 : c ≠ 0x7C) : Neutral F [c] := by
   refine ⟨fun r => ?_, fun r => capOpens_plain F.vk r h1 h3 h4,
-    fun r => lexNames_plain F.vk r h3 h4 (fun h => absurd h h1), fun r hf => fragCore_tail h3 h4 hf⟩
+    fun r => lexNames_plain F.vk r h3 h4 (fun h => absurd h h1), fun r hf => fragCore_tail h3 h4 hf,
+    fun stk cur r => scopeGo_plain F.vk stk cur r h1 h2 h3 h4 h5⟩
   simp [mdGo_out F.vk r h3 h4, h1, h2]
 
 /-- Inside a class every character but `\` and `]` — and, under `v`, `[` — is ordinary. -/
 theorem neutralM_in (F : Feat) (d : Nat) {c : Nat} (h1 : c ≠ 0x5C) (h2 : c ≠ 0x5D)
     (h3 : F.vk = false ∨ c ≠ 0x5B) : NeutralM F (d + 1) [c] :=
   ⟨fun r => mdGo_in F.vk d r h1 h2 h3, fun r => capGo_in F.vk d r h1 h2 h3, fun r => namesGo_in F.vk d r h1 h2 h3,
-    fun r hf => by rwa [List.singleton_append, fragGo_in F d r h1 h2 h3] at hf⟩
+    fun r hf => by rwa [List.singleton_append, fragGo_in F d r h1 h2 h3] at hf,
+    fun stk cur r => scopeGo_in F.vk d stk cur r h1 h2 h3⟩
 
 theorem neutralM_plain (F : Feat) (m : Nat) {c : Nat} (h : Plain c) : NeutralM F m [c] := by
-  obtain ⟨h1, h2, h3, h4, h5⟩ := h
+  obtain ⟨h1, h2, h3, h4, h5, h6⟩ := h
   cases m with
   | succ d => exact neutralM_in F d h3 h5 (.inr h4)
-  | zero => exact neutral_out F h1 h2 h3 h4
+  | zero => exact neutral_out F h1 h2 h3 h4 h6
 
 theorem neutralM_esc (F : Feat) (m : Nat) (x : Nat) : NeutralM F m [0x5C, x] := by
   refine ⟨fun r => mdGo_esc F.vk m x r, fun r => capGo_esc F.vk m x r, fun r => namesGo_esc F.vk m x r,
-    fun r hf => ?_⟩
+    fun r hf => ?_, fun stk cur r => scopeGo_esc F.vk m stk cur x r⟩
   cases m with
   | succ d =>
     simp only [List.cons_append, List.nil_append, fragGo_esc_in, Bool.and_eq_true] at hf
@@ -484,25 +592,27 @@ theorem neutral_plains (F : Feat) {p : List Nat} (h : ∀ c ∈ p, Plain c) : Ne
 theorem neutral_class {F : Feat} {b : List Nat} (hb : NeutralM F 1 b) :
     Neutral F (0x5B :: (b ++ [0x5D])) := by
   have e1 : ∀ r, 0x5B :: (b ++ [0x5D]) ++ r = 0x5B :: (b ++ 0x5D :: r) := by intro r; simp
-  refine ⟨fun r => ?_, fun r => ?_, fun r => ?_, fun r hf => ?_⟩
+  refine ⟨fun r => ?_, fun r => ?_, fun r => ?_, fun r hf => ?_, fun stk cur r => ?_⟩
   · rw [e1, mdGo_open, hb.md, mdGo_close]
   · rw [e1, capGo_open, hb.cap, capGo_close]
   · rw [e1, namesGo_open, hb.names, namesGo_close]
   · rw [e1, fragGo_open, Bool.and_eq_true] at hf
     have := hb.frag _ hf.2
     rwa [fragGo_close] at this
+  · rw [e1, scopeGo_open, hb.scope, scopeGo_close]
 
 /-- A complete nested class `[ body ]` (flag `v`) is neutral inside a class. -/
 theorem neutral_nested {F : Feat} (hv : F.vk = true) {d : Nat} {b : List Nat} (hb : NeutralM F (d + 2) b) :
     NeutralM F (d + 1) (0x5B :: (b ++ [0x5D])) := by
   have e1 : ∀ r, 0x5B :: (b ++ [0x5D]) ++ r = 0x5B :: (b ++ 0x5D :: r) := by intro r; simp
-  refine ⟨fun r => ?_, fun r => ?_, fun r => ?_, fun r hf => ?_⟩
+  refine ⟨fun r => ?_, fun r => ?_, fun r => ?_, fun r hf => ?_, fun stk cur r => ?_⟩
   · rw [e1, hv, mdGo_nest, ← hv, hb.md, mdGo_close]
   · rw [e1, hv, capGo_nest, ← hv, hb.cap, capGo_close]
   · rw [e1, hv, namesGo_nest, ← hv, hb.names, namesGo_close]
   · rw [e1, fragGo_nest F hv] at hf
     have := hb.frag _ hf
     rwa [fragGo_close] at this
+  · rw [e1, hv, scopeGo_nest, ← hv, hb.scope, scopeGo_close]
 
 /-- The depth potential: parenthesis depth ahead, plus — for class sets — the number of `[` ahead
 (nested classes count towards the crate's nesting limit as well). -/
@@ -545,8 +655,8 @@ theorem QDrop.neutral (F : Feat) {r r2 : List Nat} (h : QDrop r r2) : ∃ p, r =
   refine ⟨x :: p, rfl, neutral_plains F ?_⟩
   intro c hc
   rcases List.mem_cons.1 hc with rfl | h
-  · rcases hx with h | h | h | h <;> subst h <;> (refine ⟨?_, ?_, ?_, ?_, ?_⟩ <;> decide)
-  · exact ⟨(hp c h).1, (hp c h).2.1, (hp c h).2.2.1, (hp c h).2.2.2.1, (hp c h).2.2.2.2⟩
+  · rcases hx with h | h | h | h <;> subst h <;> (refine ⟨?_, ?_, ?_, ?_, ?_, ?_⟩ <;> decide)
+  · exact hp c h
 
 /-! ## Invariants -/
 
@@ -567,6 +677,8 @@ structure Glob where
   L : List (List Nat) := []
   /-- the flag `v` -/
   V : Bool := false
+  /-- the verdict of the scope scanner on the whole pattern (`true`: no name recurs in its scope) -/
+  B : Bool := true
 
 /-- Invariant of the parser state during the descent (for a state INSIDE a disjunction, i.e. after
 `consume_disjunction` has incremented `depth`).  `e`: escapes admitted (then the input consists of
@@ -604,11 +716,47 @@ early-error check. -/
 def Poisoned (Γ : Glob) (est : ESG.St) : Prop :=
   Γ.G < min est.maxDec USIZE_MAX ∨ ∃ r ∈ est.refs, mapGet Γ.N r = none
 
-/-- What the two states have in common: the number of groups opened so far, and the names seen so
-far (followed by those still ahead: all names of the pattern). -/
-structure Joint (F : Feat) (Γ : Glob) (est : ESG.St) (st : PState) : Prop where
+/-- Two scopes with the same members. -/
+def SEq (a b : List (List Nat)) : Prop := ∀ x, x ∈ a ↔ x ∈ b
+
+theorem SEq.refl (a : List (List Nat)) : SEq a a := fun _ => Iff.rfl
+theorem SEq.symm {a b : List (List Nat)} (h : SEq a b) : SEq b a := fun x => (h x).symm
+theorem SEq.trans {a b c : List (List Nat)} (h1 : SEq a b) (h2 : SEq b c) : SEq a c :=
+  fun x => (h1 x).trans (h2 x)
+theorem SEq.append_left (a : List (List Nat)) {b c : List (List Nat)} (h : SEq b c) : SEq (a ++ b) (a ++ c) :=
+  fun x => by simp only [List.mem_append]; rw [h x]
+
+theorem mem_scopeUnion (a b : List (List Nat)) (x : List Nat) : x ∈ ESG.scopeUnion a b ↔ x ∈ a ∨ x ∈ b := by
+  simp only [ESG.scopeUnion, List.mem_append, List.mem_filter, Bool.not_eq_true', List.contains_eq_mem,
+    decide_eq_false_iff_not]
+  constructor
+  · rintro (h | ⟨h, _⟩)
+    · exact .inr h
+    · exact .inl h
+  · rintro (h | h)
+    · by_cases hb : x ∈ b
+      · exact .inl hb
+      · exact .inr ⟨h, hb⟩
+    · exact .inl h
+
+/-- What the two states have in common: the number of groups opened so far, the names seen so
+far (followed by those still ahead: all names of the pattern), and the scope. -/
+structure Joint (F : Feat) (Γ : Glob) (stk : List Frame) (est : ESG.St) (st : PState) : Prop where
   groups : est.groups = st.groupCount
   names : est.names.reverse ++ lexNames F.vk st.input = Γ.L
+  /-- the bottom frame is that of the whole pattern -/
+  ne : stk ≠ []
+  /-- the scope scanner, started with the recognizer's scope on the frames `stk`, accepts the rest -/
+  scope : ∃ cur, SEq cur est.scope ∧ scopeGo F.vk 0 stk cur st.input = Γ.B
+
+/-- The same at the end of a disjunction whose frame is `(sv, acc)`: the recognizer's scope is the
+union over the alternatives, the scanner still holds the last alternative's scope apart. -/
+structure JointD (F : Feat) (Γ : Glob) (sv acc : List (List Nat)) (stk : List Frame) (est : ESG.St)
+    (st : PState) : Prop where
+  groups : est.groups = st.groupCount
+  names : est.names.reverse ++ lexNames F.vk st.input = Γ.L
+  scope : ∃ acc' cur, SEq (acc' ++ cur) (acc ++ est.scope) ∧
+    scopeGo F.vk 0 ((sv, acc') :: stk) cur st.input = Γ.B
 
 /-- The recognizer's state only grows. -/
 structure Grows (est est' : ESG.St) : Prop where
@@ -648,19 +796,32 @@ theorem PInv.drop {F : Feat} {u : Bool} {Γ : Glob} {st : PState} (h : PInv F u 
 
 theorem PInv.tail {F : Feat} {u : Bool} {Γ : Glob} {st : PState} (h : PInv F u Γ st) {c : Nat} {r : List Nat}
     (hi : st.input = c :: r) (h1 : c ≠ 0x28) (h2 : c ≠ 0x29) (h3 : c ≠ 0x5C) (h4 : c ≠ 0x5B) :
-    PInv F u Γ { st with input := r } :=
-  h.drop (p := [c]) hi (neutral_out F h1 h2 h3 h4)
+    PInv F u Γ { st with input := r } := by
+  have hd := h.depth; have hgp := h.groups; have hl := h.loops; have hf := h.frag
+  have hc := h.chars; have hcap := h.cap
+  rw [hi] at hd hgp hl hf hc hcap
+  rw [dpot_other F r h1 h2 h3 h4] at hd
+  rw [capOpens_plain _ r h1 h3 h4] at hcap
+  have e1 := quants_append_le [c] r
+  have e2 := opens_append_le [c] r
+  simp only [List.singleton_append] at e1 e2
+  exact ⟨h.uni, h.nov, fragCore_tail h3 h4 hf, fun he x hx => hc he x (by simp [hx]), hd, by simp only; omega,
+    by simp only; omega, h.gmax, hcap, h.named, h.nok, h.usets⟩
 
-theorem Joint.drop {F : Feat} {Γ : Glob} {est : ESG.St} {st : PState} (h : Joint F Γ est st) {p r : List Nat}
-    (hi : st.input = p ++ r) (hp : Neutral F p) : Joint F Γ est { st with input := r } := by
+theorem Joint.drop {F : Feat} {Γ : Glob} {stk : List Frame} {est : ESG.St} {st : PState}
+    (h : Joint F Γ stk est st) {p r : List Nat}
+    (hi : st.input = p ++ r) (hp : Neutral F p) : Joint F Γ stk est { st with input := r } := by
   have h2 := h.names
   rw [hi, hp.names_eq r] at h2
-  exact ⟨h.groups, h2⟩
+  obtain ⟨cur, hc, hs⟩ := h.scope
+  rw [hi, hp.scope] at hs
+  exact ⟨h.groups, h2, h.ne, cur, hc, hs⟩
 
-theorem Joint.tail {F : Feat} {Γ : Glob} {est : ESG.St} {st : PState} (h : Joint F Γ est st) {c : Nat} {r : List Nat}
-    (hi : st.input = c :: r) (h1 : c ≠ 0x28) (h2 : c ≠ 0x29) (h3 : c ≠ 0x5C) (h4 : c ≠ 0x5B) :
-    Joint F Γ est { st with input := r } :=
-  h.drop (p := [c]) hi (neutral_out F h1 h2 h3 h4)
+theorem Joint.tail {F : Feat} {Γ : Glob} {stk : List Frame} {est : ESG.St} {st : PState}
+    (h : Joint F Γ stk est st) {c : Nat} {r : List Nat}
+    (hi : st.input = c :: r) (h1 : c ≠ 0x28) (h2 : c ≠ 0x29) (h3 : c ≠ 0x5C) (h4 : c ≠ 0x5B) (h5 : c ≠ 0x7C) :
+    Joint F Γ stk est { st with input := r } :=
+  h.drop (p := [c]) hi (neutral_out F h1 h2 h3 h4 h5)
 
 /-! ## One iteration of the term loop -/
 
